@@ -35,6 +35,10 @@ func compare(h histlib.History) (string, string, histlib.RunStats, error) {
 		with.Digest, without.Digest = "", ""
 	}
 	switch {
+	case with.FreshErr != "" && without.FreshErr == "":
+		return "fresh-connection-fails", "a connection opened after the history cannot read the source with litestream: " + with.FreshErr, st, nil
+	case with.Digest != "" && with.FreshDigest != with.Digest && without.FreshDigest == without.Digest:
+		return "fresh-connection-differs", fmt.Sprintf("a connection opened after the history reads different schema/rows (digest %s) than the application's own connection (%s)", with.FreshDigest, with.Digest), st, nil
 	case with.Digest != without.Digest:
 		return "user-data-differs", fmt.Sprintf("user-visible schema/rows differ with litestream (digest %s) and without (%s)", with.Digest, without.Digest), st, nil
 	case with.LockRows != 0:
